@@ -2653,6 +2653,18 @@ package main
 //@   panics never
 //@   returns ut.Name
 
+// a match is emitted by the emitter of its kind of rules, for its own target and rules
+//@ func meToGoReturn
+//@   props C09 C03
+//@   ghost TXT string            -- the text the union emitter returned
+//@   ghost TG Expr               -- the target it was given
+//@   ghost RU UnionMatchRules    -- the rules it was given
+//@   panics may
+//@   ensures union-rules-go-to-the-union-emitter: is(MatchRules_RUnions, me.Rules) ==> result == TXT && TG == me.Target && RU == MatchRules_RUnions_Value(me.Rules)
+//@   at before call umrToGoReturn#0: TG = $2
+//@   at before call umrToGoReturn#0: RU = $3
+//@   at after call umrToGoReturn#0: TXT = ret
+
 //@ func umrToGoReturn
 //@   props C09
 //@   ghost TMP string            -- the temporary the scrutinee is bound to (only when some arm has a variable)
